@@ -6,6 +6,7 @@ import os
 from hypothesis import strategies as st
 
 import buckets
+import fsnap
 import gem
 import harness
 import refmanifest as R
@@ -59,7 +60,12 @@ def case(draw):
     if draw(st.integers(0, 3)) == 0:
         o['format'] = draw(st.sampled_from(['bz2', 'xz', 'lzma', 'gz']))
     edits = draw(repogen.repo_edits(r))
-    return {'repo': r, 'opts': o, 'edits': edits}
+    pk = sorted({os.path.dirname(p) for p in r['files']
+                 if p.endswith('.ebuild') and p.count('/') == 2})
+    pk += sorted({p.split('/')[0] for p in pk})
+    return {'repo': r, 'opts': o, 'edits': edits,
+            'forced_subdir': draw(st.sampled_from(pk))
+            if pk and draw(st.booleans()) else None}
 
 
 def strat(tier):
@@ -140,7 +146,8 @@ def manifest_dirs(root):
     return out
 
 
-def check_manifests(root, o, what, created_now, classes, prior_entries=None):
+def check_manifests(root, o, what, created_now, classes, prior_entries=None,
+                    rewritten=None, prev_fmt=None):
     """Policy checks on the Manifests in @created_now (dirs whose Manifest
     was created by this run) / on all entries for typing."""
     profile = o['profile']
@@ -209,12 +216,16 @@ def check_manifests(root, o, what, created_now, classes, prior_entries=None):
             if comp:
                 return violation(f'{what}: top-level Manifest compressed',
                                  sig='top-compressed', classes=classes)
-        elif wm is not None and mdir in created_now:
+        elif wm is not None and (mdir in created_now or (
+                rewritten is not None and mp in rewritten)):
             with open(os.path.join(root, mp), 'rb') as f:
                 u = len(R.decompress(f.read(), comp))
             has_ebuild = any(e.tag == 'EBUILD' for e in entries)
-            want = fmt if (u >= wm and not (profile == 'old-ebuild'
-                                            and has_ebuild)) else None
+            target = fmt
+            if mdir not in created_now and prev_fmt and prev_fmt.get(mdir):
+                target = prev_fmt[mdir]     # compressed before: format kept
+            want = target if (u >= wm and not (profile == 'old-ebuild'
+                                               and has_ebuild)) else None
             if comp != want:
                 return violation(
                     f'{what}: Manifest {mp!r} (uncompressed {u} bytes, '
@@ -278,6 +289,9 @@ def run_case(desc):
                         prior[refscan.join(refscan.dirname(mp), e.path)] = \
                             e.tag
             before = set(manifest_dirs(root))
+            prev_fmt = {d: R.compression_of(ms[0])
+                        for d, ms in manifest_dirs(root).items()}
+            snap0 = fsnap.snapshot(root)
             repogen.apply_edits(root, desc['edits'])
             tree = list_tree(root)
             oc, records, _ = gem.cli(['update'] + cli_args(o) + [root])
@@ -298,11 +312,34 @@ def run_case(desc):
                     f'{what}: Manifests in {sorted(got)}, policy names '
                     f'{sorted(exp)} (before: {sorted(before)})',
                     sig='placement-after-update', classes=classes)
+            rew = set(fsnap.changed_paths(fsnap.diff(
+                snap0, fsnap.snapshot(root))))
             v = check_manifests(root, o, what, set(got) - before, classes,
-                                prior_entries=prior)
+                                prior_entries=prior, rewritten=rew,
+                                prev_fmt=prev_fmt)
             if v is not None:
                 return v
             classes.append('updated')
+        # a forced update of one package/category directory rewrites every
+        # Manifest: the policy must still hold everywhere
+        sub = desc.get('forced_subdir')
+        if sub and os.path.isdir(os.path.join(root, sub)) \
+                and profile != 'default':
+            prev_fmt = {d: R.compression_of(ms[0])
+                        for d, ms in manifest_dirs(root).items()}
+            snap0 = fsnap.snapshot(root)
+            oc, records, _ = gem.cli(['update'] + cli_args(o) + [
+                '-f', os.path.join(root, sub)])
+            what = f'`gemato update {" ".join(cli_args(o))} -f <repo>/{sub}`'
+            if oc.kind == 'return' and oc.value == 0:
+                rew = set(fsnap.changed_paths(fsnap.diff(
+                    snap0, fsnap.snapshot(root))))
+                v = check_manifests(root, o, what, set(), classes,
+                                    prior_entries=None, rewritten=rew,
+                                    prev_fmt=prev_fmt)
+                if v is not None and not v.sig.startswith('wrong-tag'):
+                    return v
+                classes.append('forced-subdir-update')
         files = desc['repo']['files']
         has_pkg = any(p.endswith('.ebuild') and p.count('/') == 2
                       for p in files)
